@@ -61,3 +61,13 @@ package keeper
 //@        len(final_avsList) == len(avsList) + 1 && final_avsList[len(avsList)] == avsInfo.AvsAddress &&
 //@        forall(i, 0, len(avsList), final_avsList[i] == avsList[i])
 //@   ensures[C05.geea.excl] !(epochIdentifier == avsInfo.EpochIdentifier && endingEpochNumber + 1 >= avsInfo.StartingEpoch) ==> final_avsList == avsList
+
+// ---------------------------------------------------------------------------------------------
+// C10: a task result is written (in either phase) only for the operator that sent the message: every write of a task
+// result happens on a path on which the sender address equals the operator address the result is attributed to.
+//@ func (*Keeper).SetTaskResultInfo
+//@   requires info != nil
+//@   flag noframe
+//@   flag pure=IsOperator,GetOperatorPubKey,PublicKeyFromBytes,GetTaskInfo,GetAVSInfoByTaskAddress,GetEpochInfo,IsExistTaskResultInfo,GetTaskResultInfo,Keccak256Hash,UnmarshalTaskResponse,VerifySignature,FormatUint
+//@   before[C10.stri.self] prefix.Store).Set requires addr == old(info.OperatorAddress) && info.OperatorAddress == old(info.OperatorAddress)
+//@   ensures[C10.stri.self] err == nil ==> addr == old(info.OperatorAddress)
